@@ -65,7 +65,7 @@ let () =
               | Some ((bits, sg), v) -> Printf.sprintf "%s %s %s %s" (dec_of_z bits) (b2s sg) (dec_of_z v) (dec_of_z (c_convert t v)))
            | "int2str" -> (match nl_int2str (z_of_dec (arg 0)) with Some l -> str_of_codes l | None -> "!overrun")
            | "uint2str" -> (match nl_uint2str (z_of_dec (arg 0)) with Some l -> str_of_codes l | None -> "!overrun")
-           | "str2int" -> (match nl_str2int (z_of_dec (arg 0)) (zlist_of_hexbytes (arg 1)) with Some v -> dec_of_z v | None -> "fail")
+           | "str2int" -> (match nl_str2int (z_of_dec (arg 0)) (zlist_of_hexbytes (if arg 1 = "e" then "" else arg 1)) with Some v -> dec_of_z v | None -> "fail")
            | _ -> "?")
         with e -> "!exn " ^ Printexc.to_string e
       in
